@@ -37,7 +37,7 @@ var Def = driver.PropDef{
 		"R6 mem/file sibling skeleton (roffset/woffset arguments in parameter order, position updates, reset when positions meet, buffered/available formulas, nil backing store); " +
 		"R7 ring index clamp form (offset = own position % size; maxlen only lowered, to exactly the ring bounds).",
 	NotDecided: "byte-for-byte FIFO equality, arithmetic correctness of the ring bounds for every position beyond the clamp-term comparison, absence of deadlock for every interleaving (R2-R4 are its standard necessary conditions, not a proof).",
-	Trusted:    []string{"go/parser, go/types, go/cfg (x/tools v0.29.0)", "sync.Mutex / sync.Cond semantics", "copy, os.File.ReadAt/WriteAt semantics"},
+	Trusted:    []string{"go/parser, go/types, go/cfg (x/tools v0.29.0)", "sync.Mutex / sync.Cond semantics", "copy, os.File.ReadAt/WriteAt semantics", "io count contract: an operation handed a byte slice first and returning (int, error) reports 0 <= n <= len(slice) (used to decide `n > 0` / `n != 0` alike)", "package-level error values (io.EOF, io.ErrClosedPipe, Err*) are never nil"},
 	Run:        Run,
 }
 
@@ -82,6 +82,7 @@ func Run(c *core.Ctx) {
 	side(c, writeSome, ws, "writeSome", ww, rw, "rerr")
 	r5read(c, readSome, rs)
 	r5write(c, writeSome, ws)
+	r5api(c)
 
 	// ---- R3 close
 	closeRule(c, "RClose", "rerr", "rclose", "ErrClosedPipe", rw, ww)
@@ -115,9 +116,8 @@ func waitCond(c *core.Ctx, fn *core.Fn, res *ring.SymResult) string {
 		return ""
 	}
 	sites := map[token.Pos]string{}
-	twice, unknown := false, false
+	unknown := false
 	for _, t := range res.Traces {
-		k := 0
 		for _, e := range t.Events {
 			if f, m, ok := ring.CondOp(e); m == "Wait" {
 				if !ok {
@@ -125,20 +125,16 @@ func waitCond(c *core.Ctx, fn *core.Fn, res *ring.SymResult) string {
 					continue
 				}
 				sites[e.Pos] = f
-				k++
 			}
-		}
-		if k > 1 {
-			twice = true
 		}
 	}
 	if unknown {
 		c.Undecidedf("R4.wait", name+"/one-wait", fn.Decl.Pos(), "%s waits on a condition that is not a field of the pipe", name)
 		return ""
 	}
-	if len(sites) != 1 || twice {
+	if len(sites) != 1 {
 		c.Check("R4.wait", name+"/one-wait", fn.Decl.Pos(), false,
-			fmt.Sprintf("%s must contain exactly one Wait (its no-progress tail); found %d: a side that never sleeps spins, one that sleeps twice can miss the wake-up", name, len(sites)))
+			fmt.Sprintf("%s must contain exactly one Wait (its no-progress tail); found %d: a side that never sleeps spins, one that sleeps in two places can miss the wake-up", name, len(sites)))
 		return ""
 	}
 	for _, f := range sites {
@@ -178,6 +174,15 @@ func (v *verdict) report(c *core.Ctx, rule, key string, def token.Pos, msg strin
 	c.Check(rule, key, pos, v.bad == nil, msg, w...)
 }
 
+// isSyncField: the read only fetches a mutex / condition variable (to unlock or signal).
+func isSyncField(e *ring.Event) bool {
+	if e.Field == nil {
+		return false
+	}
+	tp := core.NamedTypePath(e.Field.Type())
+	return tp == "sync.Mutex" || tp == "sync.RWMutex" || tp == "sync.Cond"
+}
+
 func isUnlock(e *ring.Event) bool {
 	return e.Kind == ring.EvCall && e.Callee != nil && e.Callee.Pkg() != nil && e.Callee.Pkg().Path() == "sync" && (e.Callee.Name() == "Unlock" || e.Callee.Name() == "RUnlock")
 }
@@ -195,11 +200,12 @@ func side(c *core.Ctx, fn *core.Fn, res *ring.SymResult, name, own, peer, peerEr
 	var signal, onlyNoProg, afterStore, peerOpen, retZero verdict
 	anyStore := false
 	for _, t := range res.Traces {
-		s := t.First(storeOp)
-		if s != nil {
+		stores := t.Find(storeOp)
+		for _, s := range stores {
 			anyStore = true
-			// R2: a normal exit on which the store may have made progress or failed has signalled the peer
+			// R2: a normal exit on which a store attempt may have made progress or failed has signalled the peer after it
 			if t.Normal() && ring.MayProgress(t.Facts, s) {
+				s := s
 				sig := t.First(func(e *ring.Event) bool {
 					return e.Index > s.Index && ring.IsCondOp(e, peer, "Signal", "Broadcast")
 				})
@@ -208,18 +214,50 @@ func side(c *core.Ctx, fn *core.Fn, res *ring.SymResult, name, own, peer, peerEr
 				signal.add(t, s.Pos, true)
 			}
 		}
-		// R4: the Wait
-		w := t.First(func(e *ring.Event) bool { return ring.IsCondOp(e, own, "Wait") })
-		if w == nil {
+		// R4: every Wait on the path (one when the caller loops, several when the
+		// function itself re-examines the state in a loop): the store was tried
+		// since the previous wake-up, returned nothing, and the peer is open
+		waits := t.Find(func(e *ring.Event) bool { return ring.IsCondOp(e, own, "Wait") })
+		prev := -1
+		for _, w := range waits {
+			var s *ring.Event
+			for _, x := range stores {
+				if x.Index < w.Index {
+					s = x
+				}
+			}
+			before := s != nil && s.Index > prev
+			afterStore.add(t, w.Pos, before)
+			onlyNoProg.add(t, w.Pos, before && ring.NoProgress(t.FactsAt(w), s))
+			peerOpen.add(t, w.Pos, peerVar != nil && t.FactsAt(w).IsNil(w.FieldNow(res.Recv, peerVar)))
+			prev = w.Index
+		}
+		if len(waits) == 0 {
 			continue
 		}
-		before := s != nil && s.Index < w.Index
-		afterStore.add(t, w.Pos, before)
-		onlyNoProg.add(t, w.Pos, before && ring.NoProgress(t.FactsAt(w), s))
-		peerOpen.add(t, w.Pos, peerVar != nil && t.FactsAt(w).IsNil(w.FieldNow(res.Recv, peerVar)))
+		// after the last Wait: either the state is examined again (another store
+		// attempt follows), or the function returns (0, nil) for the caller to do so
+		w := waits[len(waits)-1]
+		again := false
+		for _, x := range stores {
+			if x.Index > w.Index {
+				again = true
+			}
+		}
+		if again || t.Exit == ring.ExitCut {
+			continue
+		}
+		// nothing but the return of (0, nil) - or the shared state is read again
+		// (then the other rules, which look at the field versions current at each
+		// step, judge what follows: nothing read before the Wait counts any more)
 		okRet := t.Normal() && len(t.Results) == 2 && t.Facts.IsZero(t.Results[0]) && t.Facts.IsNil(t.Results[1])
+		reexamined := false
 		for _, e := range t.Events[w.Index+1:] {
 			switch e.Kind {
+			case ring.EvRead:
+				if e.Base != nil && res.Recv != nil && e.Base.Key() == res.Recv.Key() && !isSyncField(e) {
+					reexamined = true
+				}
 			case ring.EvStore:
 				okRet = false
 			case ring.EvCall:
@@ -228,9 +266,7 @@ func side(c *core.Ctx, fn *core.Fn, res *ring.SymResult, name, own, peer, peerEr
 				}
 			}
 		}
-		if t.Exit == ring.ExitReturn || t.Exit == ring.ExitPanic {
-			retZero.add(t, w.Pos, okRet)
-		}
+		retZero.add(t, w.Pos, okRet || reexamined)
 	}
 	if !anyStore {
 		c.Undecidedf("R2.wake", name+"/store-call", fn.Decl.Pos(), "no path of %s calls p.store.%s", name, name)
@@ -246,7 +282,14 @@ func side(c *core.Ctx, fn *core.Fn, res *ring.SymResult, name, own, peer, peerEr
 	retZero.report(c, "R4.wait", name+"/return-after-wait", fn.Decl.Pos(),
 		"after Wait the function must return (0, nil) so that the caller's loop re-examines the state under the lock")
 
-	// callers retry after a wake-up
+	// callers retry after a wake-up (needed only if the operation can come back
+	// empty-handed for a non-empty buffer, i.e. does not re-examine the state itself)
+	if !ring.MayReturnIdle(res) {
+		for _, f := range ring.CallsIn(c, pkg).Callers[fn.Obj.Origin()] {
+			c.Okf("R4.wait", name+"/caller-loops/"+ring.BodyName(f), f.Pos(), "%s never returns (0, nil) for a non-empty buffer: it re-examines the state itself after a wake-up", name)
+		}
+		return
+	}
 	vs := ring.RetriesOnWake(c, pkg, fn.Obj)
 	for _, v := range vs {
 		key := name + "/caller-loops/" + ring.BodyName(v.Fn.Obj)
@@ -349,7 +392,12 @@ func r5read(c *core.Ctx, fn *core.Fn, res *ring.SymResult) {
 		if !v.IsFieldLeaf("werr") || t.Facts.IsNil(v) {
 			continue
 		}
+		// evidence gathered before a Wait is stale: the lock was released
+		lastWait := t.Last(func(e *ring.Event) bool { _, m, _ := ring.CondOp(e); return m == "Wait" })
 		drained := t.First(func(e *ring.Event) bool {
+			if lastWait != nil && e.Index < lastWait.Index {
+				return false
+			}
 			if ring.IsFieldCall(e, "store", "readSome") && ring.NoProgress(t.Facts, e) {
 				return true
 			}
@@ -395,9 +443,9 @@ func r5write(c *core.Ctx, fn *core.Fn, res *ring.SymResult) {
 	sawW, sawR := false, false
 	for _, t := range res.Traces {
 		s := t.First(storeOp)
-		if s != nil {
-			tw.add(t, s.Pos, t.FactsAt(s).IsNil(s.FieldNow(res.Recv, werr)))
-			tr.add(t, s.Pos, t.FactsAt(s).IsNil(s.FieldNow(res.Recv, rerr)))
+		for _, so := range t.Find(storeOp) {
+			tw.add(t, so.Pos, t.FactsAt(so).IsNil(so.FieldNow(res.Recv, werr)))
+			tr.add(t, so.Pos, t.FactsAt(so).IsNil(so.FieldNow(res.Recv, rerr)))
 		}
 		if !t.Normal() || len(t.Results) != 2 {
 			continue
@@ -447,6 +495,73 @@ func r5write(c *core.Ctx, fn *core.Fn, res *ring.SymResult) {
 		c.Failf("R5.order", "writeSome/closed-reader-error", fn.Decl.Pos(), "writeSome returns the reader's close error once the reader is closed; no path does")
 	} else {
 		cr.report(c, "R5.order", "writeSome/closed-reader-error", fn.Decl.Pos(), "writeSome returns (0, rerr) without touching the store once the reader is closed")
+	}
+}
+
+// r5api: the close rules as seen through Buffered() and Available(), which
+// are in the quantified operation set. Buffered: once the reader closed it
+// fails with rerr; the writer's error is reported only on a path that found
+// the store empty (bytes still buffered are reported first, as Read drains
+// them first); otherwise the store's count is reported. Available: fails with
+// the close error of a closed side, otherwise reports the store's free space.
+func r5api(c *core.Ctx) {
+	werr, rerr := fieldVar(c, "pipe", "werr"), fieldVar(c, "pipe", "rerr")
+	if fn := c.Func(pkg, "pipe", "Buffered"); fn != nil && werr != nil && rerr != nil {
+		res := ring.RunSym(c, fn, &ring.Sym{})
+		if ok, why := res.Usable(); !ok || res.Recv == nil {
+			c.Undecidedf("R5.order", "Buffered/drain-before-werr", fn.Decl.Pos(), "%s", why)
+		} else {
+			r0 := ring.FieldAtEntry(res.Recv, rerr)
+			var closed, drain, count verdict
+			for _, t := range res.Traces {
+				if !t.Normal() || len(t.Results) != 2 {
+					continue
+				}
+				n, e := t.Results[0], t.Results[1].Unwrap()
+				bc := t.Last(func(ev *ring.Event) bool { return ring.IsFieldCall(ev, "store", "buffered") && len(ev.Results) == 1 })
+				switch {
+				case !t.Facts.IsNil(r0):
+					closed.add(t, t.RetPos, t.Facts.IsZero(n) && e.IsFieldLeaf("rerr") && t.Facts.NonNil(e))
+				case e.IsFieldLeaf("werr") && !t.Facts.IsNil(e):
+					drain.add(t, t.RetPos, bc != nil && t.Facts.IsZero(bc.Results[0]) && t.Facts.IsZero(n))
+				case t.Facts.IsNil(e):
+					count.add(t, t.RetPos, bc != nil && ring.LinEqual(n, bc.Results[0]))
+				default:
+					count.add(t, t.RetPos, false)
+				}
+			}
+			closed.report(c, "R5.order", "Buffered/reader-closed-error", fn.Decl.Pos(), "Buffered fails with the reader's close error once the reader is closed")
+			if !drain.seen {
+				c.Failf("R5.order", "Buffered/drain-before-werr", fn.Decl.Pos(), "Buffered never reports the writer's error: a consumer polling Buffered would not see the end of the stream")
+			} else {
+				drain.report(c, "R5.order", "Buffered/drain-before-werr", fn.Decl.Pos(),
+					"Buffered may report the writer's error (EOF) only on a path that found the store empty: bytes still buffered are reported first, as Read drains them first")
+			}
+			count.report(c, "R5.order", "Buffered/reports-count", fn.Decl.Pos(), "while the reader is open and no error is reported Buffered returns the store's count")
+		}
+	}
+	if fn := c.Func(pkg, "pipe", "Available"); fn != nil && werr != nil && rerr != nil {
+		res := ring.RunSym(c, fn, &ring.Sym{})
+		if ok, why := res.Usable(); !ok || res.Recv == nil {
+			c.Undecidedf("R5.order", "Available/closed-error", fn.Decl.Pos(), "%s", why)
+		} else {
+			w0, r0 := ring.FieldAtEntry(res.Recv, werr), ring.FieldAtEntry(res.Recv, rerr)
+			var closed, free verdict
+			for _, t := range res.Traces {
+				if !t.Normal() || len(t.Results) != 2 {
+					continue
+				}
+				n, e := t.Results[0], t.Results[1].Unwrap()
+				if t.Facts.IsNil(w0) && t.Facts.IsNil(r0) {
+					av := t.Last(func(ev *ring.Event) bool { return ring.IsFieldCall(ev, "store", "available") && len(ev.Results) == 1 })
+					free.add(t, t.RetPos, av != nil && ring.LinEqual(n, av.Results[0]) && t.Facts.IsNil(e))
+				} else {
+					closed.add(t, t.RetPos, t.Facts.IsZero(n) && (e.IsFieldLeaf("werr") || e.IsFieldLeaf("rerr")) && t.Facts.NonNil(e))
+				}
+			}
+			closed.report(c, "R5.order", "Available/closed-error", fn.Decl.Pos(), "Available fails with the close error of a closed side (a writer must not be told there is room in a closed pipe)")
+			free.report(c, "R5.order", "Available/reports-free", fn.Decl.Pos(), "with both sides open Available returns the store's free space")
+		}
 	}
 }
 
@@ -618,23 +733,25 @@ func siblings(c *core.Ctx) {
 			}
 			switch m {
 			case "readSome", "writeSome":
-				sp := ring.TransferSpec{Rule: "R6.sibling", Key: tn + "." + m, Args: []string{"len(_b)", "_p.size", "_p.rpos", "_p.wpos"}}
+				xs := ring.XferSpec{Args: []string{"len:0", "field:size", "field:rpos", "field:wpos"}}
+				var advKey, advMsg, argsKey, argsMsg, winMsg string
 				if m == "readSome" {
-					sp.OffsetFn, sp.ArgsDesc, sp.Read = "roffset", "roffset(len(b), p.size, p.rpos, p.wpos)", true
-					sp.ArgsKey, sp.WindowKey, sp.AdvKey = "roffset-args", "transfer-window", "advance-rpos"
-					sp.WindowMsg = "the bytes are taken from exactly [offset, offset+maxlen) of the backing store into the caller's buffer"
-					sp.AdvMsg = "rpos advances by exactly the number of bytes transferred"
+					xs.OffsetFn, xs.Read = "roffset", true
+					argsKey, argsMsg, advKey = "roffset-args", "calls roffset(len(b), p.size, p.rpos, p.wpos) with the arguments in parameter order", "advance-rpos"
+					winMsg = "the bytes are taken from exactly [offset, offset+maxlen) of the backing store into the caller's buffer"
+					advMsg = "rpos advances by exactly the number of bytes transferred"
 				} else {
-					sp.OffsetFn, sp.ArgsDesc, sp.Read = "woffset", "woffset(len(b), p.size, p.rpos, p.wpos)", false
-					sp.ArgsKey, sp.WindowKey, sp.AdvKey = "woffset-args", "transfer-window", "advance-wpos"
-					sp.WindowMsg = "the bytes are put into exactly [offset, offset+maxlen) of the backing store from the front of the caller's buffer"
-					sp.AdvMsg = "wpos advances by exactly the number of bytes transferred"
+					xs.OffsetFn, xs.Read = "woffset", false
+					argsKey, argsMsg, advKey = "woffset-args", "calls woffset(len(b), p.size, p.rpos, p.wpos) with the arguments in parameter order", "advance-wpos"
+					winMsg = "the bytes are put into exactly [offset, offset+maxlen) of the backing store from the front of the caller's buffer"
+					advMsg = "wpos advances by exactly the number of bytes transferred"
 				}
-				res := ring.Transfer(c, fn, sp)
-				if res == nil || res.Transfer == nil {
-					continue
-				}
+				// one walk with the offset helper opaque (maxlen / offset are one value per path)
 				sres := ring.RunSym(c, fn, &ring.Sym{Opaque: ring.OpaqueOffsets})
+				av0, awhy0, wv, wwhy := ring.TransferOnTraces(sres, xs, backing)
+				tri(argsKey, av0, awhy0, argsMsg)
+				tri("transfer-window", wv, wwhy, winMsg)
+				sp := struct{ AdvKey, AdvMsg, OffsetFn string }{advKey, advMsg, xs.OffsetFn}
 				// the positions at the end of every path (values, not statements)
 				if m == "readSome" {
 					av, awhy, rv, rwhy := ring.ReadEndState(sres, "rpos", "wpos")
@@ -643,8 +760,8 @@ func siblings(c *core.Ctx) {
 				} else {
 					av, awhy := ring.WriteEndState(sres, "wpos")
 					tri(sp.AdvKey, av, awhy, sp.AdvMsg)
-					st := ring.FrozenField(c, fn, "rpos")
-					chk("no-rpos-write", len(st) == 0, "the write side never moves rpos")
+					nv, nwhy := ring.NeverStores(sres, "rpos")
+					tri("no-rpos-write", nv, nwhy, "the write side never moves rpos")
 				}
 				zk, zmsg := "empty-returns-zero", "an empty ring yields (0, nil) so that the caller waits"
 				if m == "writeSome" {
